@@ -654,7 +654,11 @@ func (e *Engine) runScript(s *Submission, script []string, r res.Resource, kind 
 			ms, _ := strconv.Atoi(arg)
 			time.Sleep(time.Duration(ms) * time.Millisecond)
 		case "ev":
-			r.Event(arg, map[string]interface{}{"n": s.Op.ID})
+			if pad := model.PadFor(s.Op.ID); pad != "" {
+				r.Event(arg, map[string]interface{}{"n": s.Op.ID, "pad": pad})
+			} else {
+				r.Event(arg, map[string]interface{}{"n": s.Op.ID})
+			}
 		case "evraw":
 			// a custom event whose payload is not valid JSON: it cannot be
 			// encoded, so nothing is published
@@ -1214,3 +1218,11 @@ func (e *Engine) isQuerySub(subject string) bool {
 func (e *Engine) Observe(t *sched.Task, point, arg string) {}
 
 var _ = nats.ErrBadSubject
+
+func init() {
+	// the predefined error values handlers answer with are exported
+	// variables of the library; the model takes their messages from there
+	for _, e := range []*res.Error{res.ErrNotFound, res.ErrMethodNotFound, res.ErrAccessDenied, res.ErrInvalidParams, res.ErrInvalidQuery} {
+		model.StdMsg[e.Code] = e.Message
+	}
+}
